@@ -1,7 +1,7 @@
 #!/bin/bash
 # usage: tools/try_refactor.sh <patch.diff> [property ids...]   -- a behaviour-preserving change: every check must stay quiet
 patch="$1"; shift
-R=/tmp/refrepo
+R=${REFREPO:-/tmp/refrepo}
 [ -d $R ] || git -C /repo worktree add --detach $R HEAD >/dev/null 2>&1
 export VERIF_REPO=$R
 cd /verif
